@@ -166,6 +166,22 @@ RowCellsOK(cells, allcells, tok) ==
       /\ ShowsErrors(allcells, tok) => Range(tok[b].errs) \subseteq cells
       /\ \A c \in DOMAIN tok : c # b => (cells \cap TokensOf(tok, c)) \subseteq TokensOf(tok, b)
 
+(* columns headed by the name of a thing ("shown with the values ... of those bins", "cells read back
+   as the formatted inputs": a value stands under the header of the thing it is the value of).
+   Per-bin tables: ds[k] = d > 0 says that the header of column k names dataset d (1 = the
+   reference) and no other dataset.  In the row of bin b a cell of such a column that shows a value
+   or an error of bin b at all shows the value or the error of dataset d. *)
+BinNumbers(tok, b) == Range(tok[b].vals) \cup Range(tok[b].errs)
+DsCellsOK(cells, ds, tok, b) ==
+   b \in DOMAIN tok => \A k \in DOMAIN cells :
+      (k \in DOMAIN ds /\ ds[k] # 0 /\ ds[k] \in DOMAIN tok[b].vals /\ cells[k] \in BinNumbers(tok, b))
+         => cells[k] \in {tok[b].vals[ds[k]], tok[b].errs[ds[k]]}
+(* tables with one row per item: expect = the <<header, text>> pairs of the row's item; a column
+   whose header is the header of a pair shows the text of that pair *)
+NamedCellsOK(heads, cells, expect) ==
+   \A k \in DOMAIN cells : \A e \in DOMAIN expect :
+      (k \in DOMAIN heads /\ expect[e].h = heads[k]) => cells[k] = expect[e].s
+
 -----------------------------------------------------------------------------
 (* the state machine: enumerate inputs, build renderings *)
 
